@@ -447,9 +447,12 @@ impl Metadata {
                     Target::Directory { ref path } => {
                         out_base.join(path.join(src_relative.with_extension("sv")))
                     }
-                    Target::Bundle { .. } => out_base.join(
-                        PathBuf::from("target").join(src.with_extension("sv").file_name().unwrap()),
-                    ),
+                    // Keep the source-relative path: deriving the staging path
+                    // from the file name alone maps `a/foo.veryl` and
+                    // `b/foo.veryl` to the same file, so one of them is lost
+                    // from the bundle and the other is emitted twice.
+                    Target::Bundle { .. } => out_base
+                        .join(PathBuf::from("target").join(src_relative.with_extension("sv"))),
                 };
                 let map = match &self.build.sourcemap_target {
                     SourceMapTarget::Directory { path } => {
